@@ -380,6 +380,7 @@ func swProperty(t *testing.T, curveNames, ops []string, compiledPct, quick, thor
 			rec.Discarded("sw:excluded shape of open finding " + sig)
 			return
 		}
+		rec.Begin("sw", c)
 		rec.Report(rt, "sw", c, runSW(c))
 	})
 }
